@@ -77,10 +77,23 @@ func addField(s *ast.Schema, objName string, f ast.StructField) {
 	s.Objects.Set(objName, o)
 }
 
+// safeGenSchemas: the shared generator can dereference a nil kind pointer of one of its own malformed
+// nodes (irgen.go, discriminator mapping over a `Kind: ref` node without Ref); such a draw is
+// replaced by a well-formed one (the rng has advanced deterministically, the case stays reproducible).
+func safeGenSchemas(r *rng, io irGenOpts) (schemas ast.Schemas) {
+	defer func() {
+		if e := recover(); e != nil {
+			io.malformed = false
+			schemas = genSchemas(r, io)
+		}
+	}()
+	return genSchemas(r, io)
+}
+
 func genC16Schemas(r *rng, o c16Opts) ast.Schemas {
 	io := defaultIRGenOpts(o.tier)
 	io.malformed = o.malformed
-	schemas := genSchemas(r, io)
+	schemas := safeGenSchemas(r, io)
 
 	// constant objects
 	type constRef struct{ pkg, name string }
